@@ -167,6 +167,21 @@ PROPS['C06'] = {
     'level_note': 'Level other (partial): extension step only. Trusted: abstract FM index laws, complement stub, Verus/Z3.',
 }
 
+PROPS['C01'] = {
+    'level': 'other',
+    'units': ['C01/pairwise'],
+    'kani': [],
+    'oracle': 'C01',
+    'decided': ['global / semiglobal / local: the temporary override of the four clip penalties is undone (the aligner scoring after the call equals the one before: part of "the result does not depend on earlier use"), and the result mode is set',
+                'TracebackCell: set_*_bits changes exactly the addressed 4-bit layer (value <= TB_MAX) and get_*_bits reads it back; set_all; new() is START in all layers',
+                'Traceback: init resets every cell of the (m+1)x(n+1) matrix to START (nothing of an earlier alignment survives), resize/set/get index arithmetic in bounds (row-major), no overflow'],
+    'undecided': ['optimality of the score, validity of the returned path, score recomputation: the 340-line three-layer DP `custom` is NOT under contract (its frame "leaves the scoring unchanged" is ASSUMED by the wrapper proofs)',
+                  'Scoring constructors, Aligner constructors'],
+    'trusted': ['ASSUMED: custom() does not modify self.scoring (external_body stub)', 'bio_types Alignment stub', 'derived Default/Clone of TracebackCell'],
+    'level_text': 'Verus proves the helper layer of the pairwise aligner (packed traceback cells, traceback matrix, clip-penalty restoration of the three mode wrappers); the dynamic program itself - and hence optimality and path validity - is not decided by this check.',
+    'level_note': 'Level other (partial): helper layer only. Trusted/assumed: frame of custom(), bio_types stub, Verus/Z3.',
+}
+
 NOT_APPLICABLE = {
     'C10': 'Myers traceback lives in impl_myers! macro bodies and generic handler traits over iterator adapter chains (rev().chain(cycle())): outside Verus extraction (macros, adapters) and outside Kani\'s tractable loop-free fragment; no contract within reach decides any clause (DESIGN.md §4 C10).',
     'C11': 'FASTA/FASTQ parsing is String-based (read_line, trim_end, splitn(char::is_whitespace), write!): Verus has no str byte reasoning or specs for these, Kani explodes on String/UTF-8/fmt (DESIGN.md §4 C11).',
